@@ -185,6 +185,62 @@ def monitor(case, tr, raw):
     return None
 
 
+def monitor_big(case, tr, raw):
+    """long-queue cases (P tokens pushed during set-up, thieves stealing until EMPTY): exactly-once / no loss only"""
+    if tr is None:
+        return "implementation produced no trace: %s" % (raw or "")[:80]
+    params, progs = parse_case(case)
+    P = params[3]
+    universe = set(range(1000000, 1000000 + P)) | set(a for (o, a) in progs[0] if o == PUSH)
+    returned = {}
+    stuck = False
+    for (t, loc, kind, val) in tr:
+        tok = None
+        if kind == -9:
+            return "the deque code crashed (signal %d)" % val
+        if kind == 919 and loc == 5000:
+            tok = val
+        elif kind == 919:
+            stuck = True
+        elif kind == 909 and val not in (EMPTY, ABORT) and not (t == 0 and val == 1 and False):
+            tok = val
+        if tok is None:
+            continue
+        if t == 0 and kind == 909 and val == 1:
+            continue       # return value of a push
+        if tok not in universe:
+            return "thread %d took %d, which was never pushed" % (t, tok)
+        if tok in returned:
+            return "token %d handed to two takers (thread %d, then thread %d) with %d tokens queued at the start" % (
+                tok, returned[tok], t, P)
+        returned[tok] = t
+    if stuck:
+        return "a thread never finished"
+    lost = sorted(universe - set(returned))
+    if lost:
+        return "token(s) %s were pushed but never returned although every taker ran until EMPTY" % lost[:4]
+    return None
+
+
+def big_cases():
+    """the owner's pop is stalled j steps in, one or two thieves then steal until EMPTY, the owner finishes, pushes one
+    more token and drains.  P spans the sizes at which a length-dependent shortcut could switch on."""
+    cases = []
+    for P in (70, 300, 1100, 4200, 9000):
+        lg = max(3, P.bit_length())
+        for j in range(0, 9):
+            for nth in (1, 2):
+                p0 = [(POP, 0), (PUSH, 77), (POP, 0), (POP, 0), (POP, 0)]
+                thieves = [[(4, 0)] for _ in range(nth)]
+                sched = [0] * j
+                if nth == 1:
+                    sched += [1] * (8 * P + 100)
+                else:
+                    sched += [1, 1, 1, 2, 2, 2, 1, 1, 2, 2, 2, 1] * (P + 50)
+                cases.append(core.fmt_case([lg, 0, 30000, P], [p0] + thieves, sched))
+    return cases
+
+
 # --------------------------------------------------------------------------
 # case generation
 # --------------------------------------------------------------------------
@@ -349,6 +405,10 @@ def run_part(ctx):
                                          "least one CAS failure in the implementation trace"})
         if not ok or ctx.failures:
             search(ctx, exe)
+        elif ctx.tier == "thorough":
+            n, bad = run_big(ctx, exe)
+            ctx.oblige("monitor:wsd-long-queues(%d runs)" % n, bad == 0, "%d long-queue runs judged a violation" % bad)
+            ctx.coverage["wsd_long_queue_runs"] = n
     return ok and not ctx.failures and not ctx.violations
 
 
@@ -376,6 +436,21 @@ def search(ctx, exe):
             core.report_violation(ctx, LABEL, c, why, line)
             if len(ctx.violations) >= 3:
                 break
+    if not ctx.violations:
+        run_big(ctx, exe)
+
+
+def run_big(ctx, exe):
+    cases = big_cases()
+    impl = core.run_sharded([exe], cases, timeout=900)
+    bad = 0
+    for c, line in zip(cases, impl):
+        why = core.safe_monitor(monitor_big, c, core.parse_trace(line) if line is not None else None, line)
+        if why:
+            bad += 1
+            if bad <= 3:
+                core.report_violation(ctx, LABEL, c, why, (line or "")[:4000])
+    return len(cases), bad
 
 
 def corpus(ctx):
